@@ -1,0 +1,119 @@
+// Copyright 2020-2025 Buf Technologies, Inc.
+//
+// Licensed under the Apache License, Version 2.0 (the "License");
+// you may not use this file except in compliance with the License.
+// You may obtain a copy of the License at
+//
+//      http://www.apache.org/licenses/LICENSE-2.0
+//
+// Unless required by applicable law or agreed to in writing, software
+// distributed under the License is distributed on an "AS IS" BASIS,
+// WITHOUT WARRANTIES OR CONDITIONS OF ANY KIND, either express or implied.
+// See the License for the specific language governing permissions and
+// limitations under the License.
+//go:build verif
+
+package bufprotosource
+
+// Contracts for the gocv verifier (author ca-C2): the location store and the location accessors (C05, C03). Comment-only.
+//
+// getPathKey: the 4-byte little-endian encoding of the path elements. TRUSTED (in-repo, outside the engine's fragment: bit
+// shifts and byte conversions are uninterpreted, the text of a []byte built by index writes is not modelled): a deterministic
+// function of the path; that it is INJECTIVE on int32 paths (two paths share a key only if they are equal) is the axiom
+// c2_pathKey-injective in /verif/specs/C01_pipeline.spec, used where "the location with exactly that path" is claimed.
+//@ trusted pure func getPathKey(path) (r)
+//
+// newLocation: a plain record (verified).
+//@ func newLocation(filePath, sourceCodeInfoLocation) (r)
+//@   property C05
+//@   ensures r != nil && r.filePath == filePath && r.sourceCodeInfoLocation == sourceCodeInfoLocation
+//
+// getPathToLocationUncached: the index of the file's source-info locations by path key; of several locations with the same
+// path (several `extend` blocks in one scope) the FIRST one is kept, as documented in the source. Every entry is a location
+// record of this file for one of the file's source-info locations, filed under that location's own path.
+//@ func (l *locationStore) getPathToLocationUncached() (r)
+//@   property C05 C03
+//@   ensures indexed: r != nil
+//@   ensures keys-are-the-paths-present: forall k string :: k in r <==> (exists j int :: 0 <= j && j < len(l.sourceCodeInfoLocations) && getPathKey(l.sourceCodeInfoLocations[j].Path) == k)
+//@   use c2_pathKey-injective
+//@   ensures entry-has-exactly-that-path: forall p []int :: getPathKey(p) in r ==> (exists j int :: 0 <= j && j < len(l.sourceCodeInfoLocations) && cast(*location, r[getPathKey(p)]).sourceCodeInfoLocation == l.sourceCodeInfoLocations[j] && len(l.sourceCodeInfoLocations[j].Path) == len(p) && (forall e int :: 0 <= e && e < len(p) ==> l.sourceCodeInfoLocations[j].Path[e] == p[e]))
+//@   ensures no-entry-no-such-path: forall p []int :: !(getPathKey(p) in r) ==> (forall j int :: 0 <= j && j < len(l.sourceCodeInfoLocations) ==> !(len(l.sourceCodeInfoLocations[j].Path) == len(p) && (forall e int :: 0 <= e && e < len(p) ==> l.sourceCodeInfoLocations[j].Path[e] == p[e])))
+//@   ensures entry-is-the-first-location-with-that-path: forall k string :: k in r ==> r[k] != nil && typeOf(r[k]) == typeId(*location) && cast(*location, r[k]).filePath == l.filePath && (exists j int :: 0 <= j && j < len(l.sourceCodeInfoLocations) && cast(*location, r[k]).sourceCodeInfoLocation == l.sourceCodeInfoLocations[j] && getPathKey(l.sourceCodeInfoLocations[j].Path) == k && (forall j2 int :: 0 <= j2 && j2 < j ==> getPathKey(l.sourceCodeInfoLocations[j2].Path) != k))
+//@   canary ensures false
+//@   canary ensures forall p []int :: !(getPathKey(p) in r)
+//@   loop 0 invariant pathToLocation != nil && (forall k string :: k in pathToLocation <==> (exists j int :: 0 <= j && j < $i && getPathKey(l.sourceCodeInfoLocations[j].Path) == k))
+//@   loop 0 invariant forall k string :: k in pathToLocation ==> pathToLocation[k] != nil && typeOf(pathToLocation[k]) == typeId(*location) && cast(*location, pathToLocation[k]).filePath == l.filePath && (exists j int :: 0 <= j && j < $i && cast(*location, pathToLocation[k]).sourceCodeInfoLocation == l.sourceCodeInfoLocations[j] && getPathKey(l.sourceCodeInfoLocations[j].Path) == k && (forall j2 int :: 0 <= j2 && j2 < j ==> getPathKey(l.sourceCodeInfoLocations[j2].Path) != k))
+//
+// getLocationByPathKey / getLocation: a lookup in the (cached) index. The cache is `sync.OnceValue(getPathToLocationUncached)`,
+// a function value: it is modelled as a deterministic function (callback pure); that it returns what getPathToLocationUncached
+// returns is sync.OnceValue's documented behaviour (TRUSTED, stdlib).
+//@ func (l *locationStore) getLocationByPathKey(pathKey) (r)
+//@   property C05 C03
+//@   callback pure getPathToLocation
+//@   ensures looked-up: r == ite(pathKey in l.getPathToLocation(), l.getPathToLocation()[pathKey], nil)
+//@ func (l *locationStore) getLocation(path) (r)
+//@   property C05 C03
+//@   callback pure getPathToLocation
+//@   ensures looked-up-by-path: r == ite(getPathKey(path) in l.getPathToLocation(), l.getPathToLocation()[getPathKey(path)], nil)
+//
+// descriptor.getLocation(path): THE location of the file's source info filed under exactly that path (nil: none, no source
+// info, or the empty path); every element accessor below goes through it with its own path.
+//@ func (d *descriptor) getLocation(path) (r)
+//@   property C05 C03
+//@   callback pure getPathToLocation
+//@   ensures no-store-or-empty-path: d.locationStore == nil || len(path) == 0 ==> r == nil
+//@   ensures looked-up-by-path: d.locationStore != nil && len(path) > 0 ==> r == ite(getPathKey(path) in d.locationStore.getPathToLocation(), d.locationStore.getPathToLocation()[getPathKey(path)], nil)
+//@ func (d *descriptor) getLocationByPathKey(pathKey) (r)
+//@   property C05 C03
+//@   callback pure getPathToLocation
+//@   ensures no-store-or-empty-key: d.locationStore == nil || pathKey == "" ==> r == nil
+//@   ensures looked-up: d.locationStore != nil && pathKey != "" ==> r == ite(pathKey in d.locationStore.getPathToLocation(), d.locationStore.getPathToLocation()[pathKey], nil)
+// The element accessors themselves (locationDescriptor.Location, namedDescriptor.NameLocation, field.NumberLocation, ...) are
+// NOT under contract: they call descriptor.getLocation through an EMBEDDED struct value (field -> namedDescriptor ->
+// locationDescriptor -> descriptor), and the engine calls a pointer-receiver method promoted through an embedded struct value
+// with an address that is unrelated to the enclosing object (reported to main with the SMT evidence).
+//
+// (The 19 package-level path keys of paths.go - csharpNamespacePathKey = getPathKey([]int32{8, 37}) ... - are not under
+// contract: a `table` clause would have to say "the key of the path [8, 37]", which needs the extensionality half of the axiom
+// c2_pathKey-injective, and table clauses cannot `use` an axiom. The numbers were compared with the oracle table by hand.)
+//
+// ---- option locations (option_extension_descriptor.go, location_store.go) ----
+//@ trusted pure interface protoreflect.FieldDescriptor
+//@ trusted pure interface protoreflect.MessageDescriptor
+//@ trusted pure interface protoreflect.Message
+//
+// isDescendantPath: ancestor is a prefix of descendant.
+//@ pure func isDescendantPath(descendant, ancestor) (r)
+//@   property C05
+//@   ensures prefix: r <==> (len(descendant) >= len(ancestor) && (forall i int :: 0 <= i && i < len(ancestor) ==> descendant[i] == ancestor[i]))
+//@   loop 0 invariant forall i int :: 0 <= i && i < $i ==> descendant[i] == ancestor[i]
+//
+// getBestMatchOptionExtensionLocation (the fallback of OptionLocation when no location has exactly the option's path): the
+// result is a location record of this file for one of the file's source-info locations, and that location is RELATED to the
+// path: an ancestor of it that still reaches the option field (at least extensionPathLen long), or a location inside it;
+// nil exactly when the file has no related location.
+//@ func (l *locationStore) getBestMatchOptionExtensionLocation(path, extensionPathLen) (r)
+//@   property C05
+//@   requires locations-exist: forall j int :: 0 <= j && j < len(l.sourceCodeInfoLocations) ==> l.sourceCodeInfoLocations[j] != nil
+//@   ensures of-this-file: r != nil ==> typeOf(r) == typeId(*location) && cast(*location, r).filePath == l.filePath
+//@   ensures related-location: r != nil ==> (exists j int :: 0 <= j && j < len(l.sourceCodeInfoLocations) && cast(*location, r).sourceCodeInfoLocation == l.sourceCodeInfoLocations[j] && ((len(l.sourceCodeInfoLocations[j].Path) >= extensionPathLen && isDescendantPath(path, l.sourceCodeInfoLocations[j].Path)) || isDescendantPath(l.sourceCodeInfoLocations[j].Path, path)))
+//@   ensures nil-only-without-related-location: r == nil ==> (forall j int :: 0 <= j && j < len(l.sourceCodeInfoLocations) ==> !(len(l.sourceCodeInfoLocations[j].Path) >= extensionPathLen && isDescendantPath(path, l.sourceCodeInfoLocations[j].Path) && len(l.sourceCodeInfoLocations[j].Path) > 0) && !isDescendantPath(l.sourceCodeInfoLocations[j].Path, path))
+//@   loop 0 invariant best-is-related: bestMatch != nil ==> bestMatchPathLen == len(bestMatch.Path) && len(bestMatch.Path) >= extensionPathLen && isDescendantPath(path, bestMatch.Path) && (exists j int :: 0 <= j && j < $i && bestMatch == l.sourceCodeInfoLocations[j])
+//@   loop 0 invariant best-len: bestMatchPathLen >= 0 && (bestMatch == nil ==> bestMatchPathLen == 0)
+//@   loop 0 invariant none-so-far: bestMatch == nil ==> (forall j int :: 0 <= j && j < $i ==> !(len(l.sourceCodeInfoLocations[j].Path) >= extensionPathLen && isDescendantPath(path, l.sourceCodeInfoLocations[j].Path) && len(l.sourceCodeInfoLocations[j].Path) > 0))
+//@   loop 0 invariant no-inner-location-so-far: forall j int :: 0 <= j && j < $i ==> !isDescendantPath(l.sourceCodeInfoLocations[j].Path, path) || (len(l.sourceCodeInfoLocations[j].Path) >= extensionPathLen && isDescendantPath(path, l.sourceCodeInfoLocations[j].Path) && len(l.sourceCodeInfoLocations[j].Path) > 0)
+//
+// OptionLocation: the location of option `field` of this element is looked up under the element's options path extended by
+// the option's FIELD NUMBER and the extra path (documented: option locations = options path + [N, ...]); an exact match is
+// preferred, otherwise the related location of getBestMatchOptionExtensionLocation is taken, searched with the length of
+// "options path + field number" as the bound; an element without source info has no option location.
+//@ func (o *optionExtensionDescriptor) OptionLocation(field, extraPath) (r)
+//@   property C05
+//@   callback pure getPathToLocation
+//@   requires locations-exist: o.locationStore != nil ==> (forall j int :: 0 <= j && j < len(o.locationStore.sourceCodeInfoLocations) ==> o.locationStore.sourceCodeInfoLocations[j] != nil)
+//@   ensures no-source-info-no-location: o.locationStore == nil ==> r == nil
+//@   ensures other-message-no-location: field.ContainingMessage().FullName() != o.message.ProtoReflect().Descriptor().FullName() ==> r == nil
+//@   assert before "loc := o.locationStore.getLocation(path)" path-is-options-path-then-field-number-then-extra: len(path) == len(o.optionsPath) + 1 + len(extraPath) && (forall k int :: 0 <= k && k < len(o.optionsPath) ==> path[k] == o.optionsPath[k]) && path[len(o.optionsPath)] == field.Number() && (forall k int :: 0 <= k && k < len(extraPath) ==> path[len(o.optionsPath) + 1 + k] == extraPath[k])
+//@   assert before "loc := o.locationStore.getLocation(path)" fallback-bound-is-the-option-field: extensionPathLen == len(o.optionsPath) + 1
+//@   assert before "return loc" exact-match-preferred: loc != nil && getPathKey(path) in o.locationStore.getPathToLocation() && loc == o.locationStore.getPathToLocation()[getPathKey(path)]
+//@   assert before "return o.locationStore.getBestMatchOptionExtensionLocation(path, extensionPathLen)" fallback-only-without-exact-match: !(getPathKey(path) in o.locationStore.getPathToLocation()) || o.locationStore.getPathToLocation()[getPathKey(path)] == nil
